@@ -16,20 +16,26 @@ def encPiece (v : Bytes) : Bytes := UInt8.ofNat v.length :: v
 
 def encodeItems (items : List Bytes) : Bytes := items.flatMap encPiece
 
+/-- the piece starts with `"` or a backquote: the branch of the loop body that calls `strconv.Unquote` -/
+def startsQuoted (v : Bytes) : Bool := v.head? == some DQ || v.head? == some BQ
+
 /-- loop body of `NewFieldsFromKVString` over the split pieces (`even` = index `i` is even, i.e. a name):
-limit on the raw piece, `TrimSpaces`, empty-name test, `strconv.Unquote` when it starts with a quote. -/
+limit on the raw piece (when the source tests it there), `TrimSpaces`, empty-name test, `strconv.Unquote` when it
+starts with a quote and — inside that branch, when the source tests it there (fix 72eac47) — the limit again on the
+unquoted value. -/
 def fromKVLoop : List Bytes → Bool → Option (List Bytes)
   | [], _ => some []
   | v :: rest, even =>
-    if v.length > maxLen then none else
+    if Logrange.Generated.C08.fieldLimitBeforeUnquote && v.length > maxLen then none else
     let v := trimSpaces v
     if v.isEmpty && even then none else
     match decodeValue v with
     | none => none
-    | some v =>
+    | some v' =>
+      if Logrange.Generated.C08.fieldLimitAfterUnquote && startsQuoted v && v'.length > maxLen then none else
       match fromKVLoop rest (!even) with
       | none => none
-      | some r => some (v :: r)
+      | some r => some (v' :: r)
 
 /-- the decoded pieces `NewFieldsFromKVString` writes (names and values alternating) -/
 def fromKVItems (kvs : Bytes) : Option (List Bytes) :=
